@@ -254,3 +254,113 @@ def captures(rep, binary, prop, fns=None, cuts=True):
 def default_args(fn, b):
     a = {"len": len(b), "ext": 1, "ct": 22, "ver": 771, "sub": "ecdh"}
     return a
+
+
+# ------------------------------------------------------------------ the streaming consumer (Stream.tla)
+def stream_runs(rep, binary, prop, fns, nwires, thorough=False):
+    """Growth (C02 / C10): Stream.tla - a consumer that follows Incomplete(Needed) - is explored by TLC for every
+    behaviour over the model's wires under both read policies (BoundedReads, NeverReadsAhead, DeliversReference,
+    StuckIffReference, NoSpin); the same loop is run on the real parsers (the model's wires, the repository's captures,
+    seeded random wires) and every recorded run is validated by Trace_Stream.  Under "needed" the run is deterministic
+    and must visit exactly the states TLC reached; under "any" it must stay inside them."""
+    import concurrent.futures as cf
+    import random
+    jobs = [(fn, w, pol) for fn in fns for w in range(1, nwires + 1) for pol in ("needed", "any")]
+
+    def one(job):
+        fn, w, pol = job
+        return job, vlib.tlc_single(prop, "stream_%s_%d_%s" % (fn, w, pol), "MC_Stream", workers=1, heap="2g", timeout=600,
+                                    env={"VERIF_WIRE": w, "VERIF_FN": fn, "VERIF_POLICY": pol}, out_name="states.ndjson")
+    reach, wires = {}, {}
+    with cf.ThreadPoolExecutor(max_workers=12) as ex:
+        for job, (d, res, lines) in ex.map(one, jobs):
+            rep.add_tlc("MC_Stream(%s,%d,%s)" % job, res)
+            for l in lines:
+                if l["policy"] == "wire":
+                    wires[(job[0], job[1])] = l["bytes"]
+                else:
+                    reach.setdefault(job, set()).add(tuple(sorted(l["st"].items())))
+    d = vlib.workdir(prop, "stream")
+    rng = random.Random(vlib.seed())
+    runs = []
+    for (fn, w), wire in sorted(wires.items()):
+        runs.append({"id": "model:%s:%d:needed" % (fn, w), "fn": fn, "policy": "needed", "wire": wire, "chunks": [], "model": (fn, w, "needed")})
+        for k in (1, 2, 3, 5, 8, 400):
+            runs.append({"id": "model:%s:%d:any:k=%d" % (fn, w, k), "fn": fn, "policy": "any", "wire": wire, "chunks": [k], "model": (fn, w, "any")})
+        for j in range(8 if not thorough else 40):
+            runs.append({"id": "model:%s:%d:any:r%d" % (fn, w, j), "fn": fn, "policy": "any", "wire": wire,
+                         "chunks": [rng.choice([1, 2, 3, 5, 8, 400]) for _ in range(40)], "model": (fn, w, "any")})
+    # real traffic and seeded random wires (no model state set: judged by trace validation alone)
+    caps = [(src, b) for src, b in extract_captures() if len(b) > 5 and b[0] in (20, 21, 22, 23, 24) and b[1] in (3, 254)]
+    for fn in fns:
+        for n, (src, b) in enumerate(caps):
+            if (fn.startswith("parse_dtls")) != (b[1] == 254):
+                continue
+            runs.append({"id": "cap:%s:%d:needed" % (fn, n), "fn": fn, "policy": "needed", "wire": b, "chunks": []})
+            runs.append({"id": "cap:%s:%d:any" % (fn, n), "fn": fn, "policy": "any", "wire": b, "chunks": [rng.choice([1, 7, 64, 500, 1460]) for _ in range(16)]})
+        base = [w for (f, _), w in sorted(wires.items()) if f == fn]
+        for j in range(30 if not thorough else 300):
+            w = list(rng.choice(base)) if base else []
+            for _ in range(rng.randint(0, 3)):
+                if w:
+                    i = rng.randrange(len(w))
+                    w[i] = rng.choice([0, 1, 3, 20, 22, 23, 65, 255, rng.randrange(256)])
+            if rng.random() < 0.3:
+                w = w[:rng.randrange(len(w) + 1)]
+            runs.append({"id": "rnd:%s:%d" % (fn, j), "fn": fn, "policy": rng.choice(["needed", "any"]), "wire": w,
+                         "chunks": [rng.choice([1, 2, 3, 5, 8, 400]) for _ in range(24)]})
+    sin, sout = os.path.join(d, "stream.in.ndjson"), os.path.join(d, "stream.out.ndjson")
+    vlib.write_ndjson(sin, [{k: r[k] for k in ("id", "fn", "policy", "wire", "chunks")} for r in runs])
+    rc, _ = vlib.run_harness(binary, ["stream", sin, sout])
+    if rc == 3:
+        rep.violation("hang:stream", {}, None, vlib.read_ndjson(sout + ".timeout"), "watchdog: the consumer loop did not finish", "stream")
+        return
+    recorded = vlib.read_ndjson(sout)
+    if len(recorded) != len(runs):
+        raise vlib.ToolError("stream: %d recorded runs for %d requested" % (len(recorded), len(runs)))
+    byid = {r["id"]: r for r in runs}
+    # spec -> impl: the states visited on the model's wires
+    visited = {}
+    for rec in recorded:
+        m = byid[rec["id"]].get("model")
+        if m:
+            v = visited.setdefault(m, set())
+            v.add(tuple(sorted({"have": 0, "start": 0, "phase": "parse", "need": 0, "incs": 0, "out": 0}.items())))
+            for e in rec["events"]:
+                if "st" in e:
+                    v.add(tuple(sorted(e["st"].items())))
+    for m, v in sorted(visited.items()):
+        want = reach.get(m, set())
+        extra = v - want
+        missing = (want - v) if m[2] == "needed" else set()
+        rep.nontrivial(("stream", m, len(v)))
+        if extra or missing:
+            s = dict(sorted(extra or missing)[0])
+            rep.violation("stream:%s:%d:%s" % m, {"fn": m[0], "wire": wires[(m[0], m[1])], "policy": m[2]}, "a state of Stream.tla", s,
+                          "streaming consumer on model wire %d with %s (%s): state %s is %s" % (
+                              m[1], m[0], m[2], s, "not reachable in Stream.tla" if extra else "reached by Stream.tla but not by the real loop"), "stream")
+    # impl -> spec: every recorded run is a behaviour of Stream.tla satisfying its properties in every state
+    tin = os.path.join(d, "recorded.ndjson")
+    vlib.write_ndjson(tin, recorded)
+    _, res, verdicts = vlib.tlc_chunked(prop, "stream_trace", "Trace_Stream", nchunks=12, env={"VERIF_IN": tin}, out_name="verdict", timeout=1200)
+    rep.add_tlc("Trace_Stream", res)
+    if len(verdicts) != len(recorded):
+        raise vlib.ToolError("Trace_Stream: %d verdicts for %d runs" % (len(verdicts), len(recorded)))
+    nsteps = 0
+    for v in verdicts:
+        r = byid[v["id"]]
+        rec = next(x for x in recorded if x["id"] == v["id"]) if v["verdict"] != "accepted" else None
+        if v["verdict"] == "accepted":
+            rep.cov["traces_validated_against_impl"] += 1
+            continue
+        ev = rec["events"][v["at"] - 1] if rec and 0 < v["at"] <= len(rec["events"]) else None
+        rep.violation("stream:%s:%s" % (r["fn"], vlib.hashlib.sha1(json.dumps([r["wire"], r["policy"], r["chunks"]]).encode()).hexdigest()[:10]),
+                      {"fn": r["fn"], "wire": r["wire"], "policy": r["policy"], "chunks": r["chunks"]}, v.get("expected"), ev,
+                      "streaming consumer (%s, %s): event %d (%s) is %s; state before it %s" % (
+                          r["fn"], r["policy"], v["at"], ev and ev.get("a"), v["verdict"], v.get("state")), "stream")
+    for rec in recorded:
+        nsteps += len(rec["events"])
+    rep.count(nsteps)
+    rep.cov["stream"] = {"model_configurations": len(jobs), "recorded_runs": len(recorded), "steps": nsteps,
+                         "capture_runs": sum(1 for r in runs if r["id"].startswith("cap:"))}
+    rep.sample({"stream_run": recorded[0]["id"], "events": [[e["a"], e.get("st", {}).get("have")] for e in recorded[0]["events"][:12]]})
